@@ -1,5 +1,6 @@
 import Witverif.Proofs.AbiLower6
 import Witverif.Proofs.AbiLift3
+import Witverif.Proofs.AbiStore4
 /-!
 # C01 — Shared ABI generator encodes and decodes every WIT value per the spec
 
@@ -12,7 +13,7 @@ public entry point is compared, exactly, with the model's (`abi-trace` vs `m_abi
 Proved here for *all* memory-free types (any nesting of records, tuples, flags with any number of
 members, enums, variants/options/results with every slot join, fixed-length lists, all scalars and
 handles), all values, both pointer widths.  Strings, lists and maps (types whose encoding needs
-linear memory) and the in-memory directions are covered by the correspondence and the monitors on
+linear memory) and lifting from memory are covered by the correspondence and the monitors on
 the real streams; their theorems are listed as partial obligations in the evidence.
 -/
 namespace Witverif.Props.C01
@@ -69,6 +70,20 @@ theorem lift_flat_correct (p : Nat) (hp : p = 4 ∨ p = 8) (c : Cfg) (t : Ty) (h
     (h : lift c lvl t xs = .ok e) :
     ∀ fr, eval (env.withFrames fr) m e = (Spec.liftFlat p m t cs).map MV.v :=
   lift_sound p hp c t hm lvl xs env m cs e hp' hwf hden h
+
+/-- **Lowering to memory writes the bytes the spec specifies.**  For every memory-free type `t`, every
+value `v` of `t`, both pointer widths, any backend configuration, any nesting level, value operand `x`,
+address operand `a` and static offset: executing the statements emitted by `write_to_memory` — from
+ANY machine state, in any environment where `x` denotes `v` and `a` denotes `addr` — terminates,
+allocates nothing, and leaves a memory that reads, at every address, exactly like the memory
+`Spec.store` produces at `addr + offset` (bytes of every field at its canonical offset, discriminant
+width, payload offset, flag words, fixed-length list elements; everything else untouched).  `Writes`
+quantifies over all states/environments (Proofs/AbiStore.lean). -/
+theorem store_correct (p : Nat) (hp : p = 4 ∨ p = 8) (c : Cfg) (t : Ty) (v : Val)
+    (hm : memFree t = true) (hv : Spec.hasTy t v = true)
+    (lvl : Nat) (x a : Expr) (off : Off) (ss : List Stmt) (h : store c lvl t x a off = .ok ss) :
+    Writes p lvl x a v ss (fun addr st => Spec.store p t v (addr + off.at p) st) :=
+  store_sound p hp c v t hm hv lvl x a off ss h
 
 /-- The spec's flat lowering of a memory-free value is well-formed: it leaves the state alone and
 yields `flatten t` many core values of the right types, each within its width. -/
